@@ -35,7 +35,7 @@ Rtp(w, ts, len, k) ==
 Wait(d) == now' = now + d /\ act' = [a |-> "wait", newer |-> FALSE] /\ UNCHANGED <<x, cnt, sum, nTs, nMs, hiSn, coh>>
 
 Next == /\ steps < MaxSteps /\ steps' = steps + 1
-        /\ \/ \E w \in 0 .. M - 1, ts \in {T0, T0 + now, T0 + now - 3}, len \in {0, 3, 5}, k \in {1, 2} : Rtp(w, ts, len, k)
+        /\ \/ \E w \in 0 .. M - 1, ts \in {T0, T0 + now, T0 + now - 3}, len \in {0, 3}, k \in {1, 2} : Rtp(w, ts, len, k)
            \/ \E d \in {2, 1001} : Wait(d)
 Spec == Init /\ [][Next]_vars
 
